@@ -1,23 +1,32 @@
 """C03 - time-window reads return exactly the intersecting events, newest first, limited."""
 S = "aw_datastore.storages.sqlite.SqliteStorage."
+D = "aw_datastore.datastore."
 PROP = dict(
     id="C03",
     level="other",
-    contract_modules=["contracts.models", "contracts.sqlite"],
-    spec_modules=["contracts.sqlite"],
+    contract_modules=["contracts.models", "contracts.sqlite", "contracts.datastore"],
+    spec_modules=["contracts.sqlite", "contracts.datastore"],
     functions=[dict(fn=S + "get_events", rt_skip=True),
                dict(fn=S + "get_eventcount", rt_skip=True),
-               dict(fn="aw_datastore.storages.sqlite._rows_to_events", rt_skip=True)],
+               dict(fn="aw_datastore.storages.sqlite._rows_to_events", rt_skip=True),
+               dict(fn=D + "Bucket.get", rt_skip=True),
+               dict(fn=D + "Bucket.get_eventcount", rt_skip=True),
+               dict(fn=S + "commit", rt_skip=True)],
     timeout_s=20,
     extra=[lambda run: run.storage_histories("C03")],
     technique="run-time refinement check of the real back ends against a reference list over random histories (bounded); "
               "with the sqlite methods proved against contracts over the table state (SQL text parsed from the source)",
-    explanation="deductive (sqlite): get_events returns exactly the live events of the bucket with endtime >= start bound and starttime <= end bound, in (starttime, endtime, id) descending order, all of them unless a positive limit is reached, in which case the omitted ones all come after every returned one; limit 0 returns nothing; get_eventcount counts exactly those rows. " 
+    explanation="deductive (sqlite): get_events returns exactly the live events of the bucket with endtime >= start bound and starttime <= end bound, in (starttime, endtime, id) descending order, all of them unless a positive limit is reached, in which case the omitted ones all come after every returned one; limit 0 returns nothing; get_eventcount counts exactly those rows. Bucket.get is proved to hand the storage the caller's window widened to whole milliseconds (start rounded down, end rounded down plus one millisecond: lemma F1 for int(microsecond / 1000)), so that nothing intersecting the caller's window is missed, and to return exactly the storage's answer for that window. " 
                 "bounded: random bucket contents (overlapping, nested, adjacent, zero-length events) and random windows (open-ended, zero-width, sub-millisecond) and limits on the three back ends: every event strictly inside (beyond 2 ms of an edge) must be returned and none strictly outside, ordered by timestamp descending, a positive limit keeps the newest, the count agrees within the same tolerance, peewee's results are the stored events cut to the window.",
 )
 
 F = "/repo/aw_datastore/storages/sqlite.py"
+FD = "/repo/aw_datastore/datastore.py"
 MUTANTS = [
+    (FD, '            milliseconds = 1 + int(endtime.microsecond / 1000)', '            milliseconds = int(endtime.microsecond / 1000)', True),   # window end rounded down: events in the last millisecond are missed
+    (FD, '                microsecond=1000 * int(starttime.microsecond / 1000)', '                microsecond=1000 * (1 + int(starttime.microsecond / 1000)) % 1000000', True),   # window start rounded up
+    (FD, '            second_offset = int(milliseconds / 1000)  # usually 0, rarely 1', '            second_offset = 0', True),   # overflow into the next second lost
+    (FD, '        return self.ds.storage_strategy.get_events(\n            self.bucket_id, limit, starttime, endtime\n        )', '        return self.ds.storage_strategy.get_events(\n            self.bucket_id, limit, endtime, starttime\n        )', True),   # bounds swapped
     (F, '            AND endtime >= ? AND starttime <= ?\n', '            AND endtime > ? AND starttime <= ?\n', True),   # window lower bound exclusive
     (F, '            AND endtime >= ? AND starttime <= ?\n', '            AND starttime >= ? AND starttime <= ?\n', True),   # window tests start only
     (F, '            ORDER BY starttime DESC, endtime DESC, id DESC LIMIT ?\n', '            ORDER BY starttime ASC, endtime DESC, id DESC LIMIT ?\n', True),   # oldest first
